@@ -25,6 +25,9 @@ import (
 const (
 	maxArrayLen      = 1024 * 1024
 	maxBulkStringLen = 1024 * 1024 * 512
+	// maxArrayDepth limits how deep arrays may nest, so that stack and memory
+	// use are bounded by the limits above and not by the nesting a peer chooses.
+	maxArrayDepth = 32
 )
 
 var (
@@ -38,6 +41,8 @@ var (
 	ErrBadArrayLen = errors.New("bad array len")
 	// ErrBadArrayLenTooLong too long array len
 	ErrBadArrayLenTooLong = errors.New("bad array len, too long")
+	// ErrBadArrayDepth for arrays nested too deeply
+	ErrBadArrayDepth = errors.New("bad array, nested too deeply")
 
 	// ErrBadBulkStringLen for invalid bulk string len
 	ErrBadBulkStringLen = errors.New("bad bulk string len")
@@ -59,8 +64,9 @@ const (
 var CRLF = []byte{CR, LF}
 
 type decoder struct {
-	br  *Reader
-	err error
+	br    *Reader
+	err   error
+	depth int // nesting depth of the array being decoded
 }
 
 func newDecoder(r io.Reader, bufSize int) *decoder {
@@ -72,6 +78,7 @@ func (d *decoder) Decode() (*RespValue, error) {
 	if d.err != nil {
 		return nil, d.err
 	}
+	d.depth = 0
 	v, err := d.decode()
 	if err != nil {
 		d.err = err
@@ -231,6 +238,10 @@ func (d *decoder) decodeArray() ([]RespValue, error) {
 	case n == -1:
 		return nil, nil
 	}
+	if d.depth >= maxArrayDepth {
+		return nil, ErrBadArrayDepth
+	}
+	d.depth++
 	array := make([]RespValue, n)
 	for i := range array {
 		r, err := d.decode()
@@ -239,6 +250,7 @@ func (d *decoder) decodeArray() ([]RespValue, error) {
 		}
 		array[i] = *r
 	}
+	d.depth--
 	return array, nil
 }
 
